@@ -85,13 +85,13 @@ extern "C" int harness_main() {
     (void)schemas();  // concrete set-up shared by all shapes
     int shape = ONLY_SHAPE >= 0 ? ONLY_SHAPE : verif_choice("shape", 8);
     switch (shape) {
-        case 0: verif_reach("shape_ts"); return shape_ts::run();
-        case 1: verif_reach("shape_tss"); return shape_tss::run();
-        case 2: verif_reach("shape_tsd"); return shape_tsd::run();
-        case 3: verif_reach("shape_tsb"); return shape_tsb::run();
-        case 4: verif_reach("shape_tsl"); return shape_tsl::run();
-        case 5: verif_reach("shape_tsw"); return shape_tsw::run();
-        case 6: verif_reach("shape_signal"); return shape_signal::run();
-        default: verif_reach("shape_tsd_tsb"); return shape_tsd_tsb::run();
+        case 0: shape_ts::g_reach.mark("shape_ts"); return shape_ts::run();
+        case 1: shape_tss::g_reach.mark("shape_tss"); return shape_tss::run();
+        case 2: shape_tsd::g_reach.mark("shape_tsd"); return shape_tsd::run();
+        case 3: shape_tsb::g_reach.mark("shape_tsb"); return shape_tsb::run();
+        case 4: shape_tsl::g_reach.mark("shape_tsl"); return shape_tsl::run();
+        case 5: shape_tsw::g_reach.mark("shape_tsw"); return shape_tsw::run();
+        case 6: shape_signal::g_reach.mark("shape_signal"); return shape_signal::run();
+        default: shape_tsd_tsb::g_reach.mark("shape_tsd_tsb"); return shape_tsd_tsb::run();
     }
 }
